@@ -1,5 +1,5 @@
 SPECIFICATION RLSpec
-CONSTANT Reasons <- LinAlgReasons
+CONSTANT Reasons <- LinAlgReasonsScoped
 INVARIANT RLVerdict
 CONSTRAINT RLConsumed
 POSTCONDITION RLPost
